@@ -371,4 +371,37 @@ theorem findOrCreateTable_spec (w : World) (hI : NodeInv w) (hG : GraphInv w) (s
       refine ⟨c3, ?_⟩
       rw [c4, (c1.nodes s2.curr h2.curr).2.1, h2.mask, hmask]
 
+
+/-- a successful walk over `add` means no added id was in the starting mask -/
+theorem walkAdds_none_absent (reg : Registry) (m0 : Mask) (l : List CompId) (s : WalkSt)
+    (h : (walkAdds reg m0 s l).2 = none) : ∀ id ∈ l, Mask.get m0 id = false := by
+  induction l generalizing s with
+  | nil => intro id hid; cases hid
+  | cons x rest ih =>
+    unfold walkAdds at h
+    cases hr : walkAdd reg m0 s x with
+    | error p => rw [hr] at h; simp at h
+    | ok s' =>
+      rw [hr] at h; simp only [] at h
+      intro id hid
+      simp only [List.mem_cons] at hid
+      rcases hid with rfl | hid
+      · unfold walkAdd at hr
+        split at hr; · cases hr
+        split at hr; · cases hr
+        rename_i hp; simpa using hp
+      · exact ih s' h id hid
+
+theorem findOrCreateTable_ok_adds (w : World) (start : Nat) (add rem : List CompId) (target : Entity) (t : Nat)
+    (h : (w.findOrCreateTable start add rem target).2 = .ok t) : ∀ id ∈ add, Mask.get (w.tableMask start) id = false := by
+  unfold findOrCreateTable at h
+  simp only [] at h
+  generalize hs1 : rem.foldl (walkRem w.reg) { w := w, curr := (w.tableOf start).node, mask := (w.nodeOf (w.tableOf start).node).mask, rel := (w.nodeOf (w.tableOf start).node).rel } = s1 at *
+  have := walkAdds_none_absent w.reg (w.nodeOf (w.tableOf start).node).mask add s1
+  generalize hs2 : walkAdds w.reg (w.nodeOf (w.tableOf start).node).mask s1 add = r2 at *
+  obtain ⟨s2, p⟩ := r2
+  cases p with
+  | some e => simp at h
+  | none => exact this rfl
+
 end Arche.Graph
